@@ -478,6 +478,20 @@ def builtin_corpus():
                         {"op": "record", "id": 0, "vals": [[0, v("bytes", "000aff22")]]},
                         {"op": "event", "cs": 1, "parent": -2,
                          "vals": [[0, v("args", H('m"\\\n\u2028'))], [1, v("i128", str(-2 ** 127))], [2, v("error", [H('e"1\n'), H("e2")])]]}]})
+    # 128-bit integers (small, just above u64::MAX / below i64::MIN, extremes) as span fields at creation, in later records and
+    # as event fields, nested and flattened (seeded C14-I: tracing-serde printing them as bare 39-digit numbers)
+    wide = [("u128", "1500000000"), ("u128", str(2 ** 64)), ("u128", str(2 ** 128 - 1)), ("i128", "-7"),
+            ("i128", str(-2 ** 63 - 1)), ("i128", str(-2 ** 127)), ("i128", str(2 ** 127 - 1)), ("u128", str(2 ** 127 + 1))]
+    wn = ["w%d" % i for i in range(len(wide))]
+    for fl in (False, True):
+        out.append({"kind": "wide-integers" + ("-flattened" if fl else ""), "opts": dict(DEF_OPTS, flatten=fl), "thread": None,
+                    "callsites": [_cs("span", "s", wn), _cs("event", "ev", ["message"] + wn)],
+                    "ops": [{"op": "span", "cs": 0, "id": 0, "parent": -1, "vals": [[i, v(*wide[i])] for i in range(0, len(wide), 2)]},
+                            {"op": "enter", "id": 0},
+                            {"op": "event", "cs": 1, "parent": -2, "vals": [[0, v("args", H("first"))]] + [[i + 1, v(*w)] for i, w in enumerate(wide)]},
+                            {"op": "record", "id": 0, "vals": [[i, v(*wide[i])] for i in range(1, len(wide), 2)]},
+                            {"op": "record", "id": 0, "vals": [[0, v(*wide[2])], [1, v("u64", str(2 ** 64 - 1))]]},
+                            {"op": "event", "cs": 1, "parent": -2, "vals": [[0, v("args", H("second"))], [3, v(*wide[7])], [4, v("i64", str(-2 ** 63))]]}]})
     ALL_SEV = dict(DEF_OPTS, sev_new=True, sev_enter=True, sev_exit=True, sev_close=True)
     out.append({"kind": "lifecycle-all-points", "opts": dict(ALL_SEV, ts=H("T")), "thread": None,
                 "callsites": [_cs("span", "outer", ["k"], target="tg", level=1, file="f.rs", line=3), _cs("span", 'in"ner', ["later"]),
@@ -691,6 +705,42 @@ def value_matches(v, obs, ulp_tol=0):
             return True, False
         return False, (ulp_tol > 0 and ulps(o, x) <= ulp_tol)
     return False, False
+
+
+EXACT_INT_RANGE = (-2 ** 63, 2 ** 64 - 1)
+JSON_TYPE_SEEN = {}         # Rust integer type -> {"event" | "span": (JSON type, line it was seen in)}; reset per run
+
+
+def jtype(x):
+    return ("bool" if isinstance(x, bool) else "number" if isinstance(x, (int, float)) else "string" if isinstance(x, str)
+            else "null" if x is None else "array" if isinstance(x, list) else "object")
+
+
+def integer_complaints(v, obs, place, line=""):
+    """`a value equal to what was recorded under the documented type mapping`, for integer fields, beyond value_matches
+    (which reads the line with Python's exact integers):
+      (1) a bare JSON number must lie in [i64::MIN, u64::MAX] (or be exactly a binary64 value): beyond it a JSON reader that keeps integers in i64 / u64 and
+          everything else in binary64 -- serde_json, the reader this formatter ITSELF re-reads every stored span field with,
+          and every double-based reader -- yields a rounded float, so the field does not read back equal to what was recorded
+          (a string of digits, what the `Visit::record_u128 / record_i128` defaults produce, is kept verbatim);
+      (2) the type mapping is ONE mapping per Rust type: the JSON type of an integer field of a given Rust type is the same
+          in event fields and in span fields (first place seen in this run vs. this one)."""
+    t = v["t"]
+    out = []
+    if t not in INT_TYPES or isinstance(obs, bool) or obs is None:
+        return out
+    if isinstance(obs, int) and not (EXACT_INT_RANGE[0] <= obs <= EXACT_INT_RANGE[1]) and float(obs) != obs:
+        out.append("%s field of type %s is the bare JSON number %d (%d digits), outside [i64::MIN, u64::MAX]: a JSON reader that "
+                   "keeps integers in i64/u64 and the rest in binary64 (serde_json, with which this formatter re-reads span "
+                   "fields) yields %r = %d, not the recorded value" % (place, t, obs, len(str(abs(obs))), float(obs), int(float(obs))))
+    jt = jtype(obs)
+    seen = JSON_TYPE_SEEN.setdefault(t, {})
+    seen.setdefault(place, (jt, line))
+    other = seen.get("span" if place == "event" else "event")
+    if other is not None and other[0] != jt:
+        out.append("type mapping: this %s field of type %s (recorded %s) is a JSON %s, but a %s field of type %s is a JSON %s (in: %s)"
+                   % (place, t, v["v"], jt, "span" if place == "event" else "event", t, other[0], other[1].strip()[:400]))
+    return out
 
 
 class Dup(list):
@@ -991,6 +1041,9 @@ def oracle_event(rep, case, sim, op, raw_chunks, flags, prof, ev_index):
             okv, _ = value_matches(vs[0], get(holder, found[0]))
             if not okv:
                 bad("event field %r = %r, recorded %s" % (n, get(holder, found[0]), json.dumps(vs[0])))
+            else:
+                for what in integer_complaints(vs[0], get(holder, found[0]), "event", raw.decode("utf-8", "replace")):
+                    bad("event field %r: %s" % (n, what))
         if not o["flatten"]:
             extra = [k for k, _ in holder if k not in ev_names and ("r#" + k) not in ev_names]
             if extra:
@@ -1054,8 +1107,14 @@ def oracle_event(rep, case, sim, op, raw_chunks, flags, prof, ev_index):
                     out.append(("span field %r = %r is stale: the later record of %s was dropped" % (n, get(obj, found[0]), json.dumps(v)), "F141"))
                 else:
                     out.append(("span field %r = %r, recorded %s" % (n, get(obj, found[0]), json.dumps(v)), None))
-            elif len(found) > 1:
-                rep.count("observation:raw-identifier-twin-keys")
+            else:
+                for k, (a, _) in zip(found, res):
+                    if a:
+                        for what in integer_complaints(v, get(obj, k), "span", raw.decode("utf-8", "replace")):
+                            out.append(("span field %r: %s" % (n, what), None))
+                        break
+                if len(found) > 1:
+                    rep.count("observation:raw-identifier-twin-keys")
         unc = sp.get("uncertain", ())
         extra = [k for k, _ in obj if k != "name" and k not in seen and k not in unc and ("r#" + k) not in unc]
         if extra:
@@ -1168,6 +1227,7 @@ def check_forms(rep, recs, prof):
 
 def run(ctx):
     rep = Report(ctx)
+    JSON_TYPE_SEEN.clear()
     rep.rule = ("seeded histories: 0-4 spans (contextual / root / explicit parents), enter / exit (some out of order), 0-5 later "
                 "record calls per span (overwrites, type changes, the same field twice), events with contextual / explicit / "
                 "explicit-root parents; every combination of flatten_event / current_span / span_list and target / level / file / "
